@@ -5,6 +5,7 @@
 //! implementation's canonical answers, one per line) and `<outdir>/<property>.stats.json`
 //! (input distribution, oracle results).
 mod alloc;
+mod c02;
 mod c05;
 mod c06;
 mod c09;
@@ -65,6 +66,10 @@ fn main() {
             eprintln!("unknown property {prop}");
             std::process::exit(2);
         }
+    }
+    // distinct XOF inputs must give distinct streams (recorded over the whole run)
+    for c in rec::collisions() {
+        out.oracle(false, || "xof-binding".to_string(), || c.clone());
     }
     out.write(dir, prop).expect("write outputs");
     println!(
